@@ -449,8 +449,12 @@ class _TypeChecker:
     # ------------------------------------------------------------------ level S (simulated)
     def _s_level(self, b):
         """name of the level for a finding at pattern b: which other levels had the right value there"""
-        agree = "".join(lv for lv in ("P", "T") if b in self.seen[lv] and b not in self.bad[lv])
-        return "S!=" + agree if agree else "S"
+        # "S!=P": the plain-Python level had the right value for this pattern (root cause is in tracing /
+        # lowering / the VHDL backend, not in the type composition); "S!=T": only the traced level had
+        for lv in ("P", "T"):
+            if b in self.seen[lv] and b not in self.bad[lv]:
+                return "S!=" + lv
+        return "S"
 
     def level_s(self, mod, pats):
         try:
@@ -591,8 +595,11 @@ def _blame(spec, out):
         else:
             # only the traced / simulated level disagrees: innermost composite on the path of the first
             # wrong leaf / bit (no per-child re-compilation)
-            parts = str(sig.get("where", "")).split("/")
-            node = "in:" + (parts[-2] if len(parts) >= 2 else spec["k"])
+            if sig["level"].startswith("S!="):
+                node = "emitted"  # another level is right on the same pattern: not a property of the type
+            else:
+                parts = str(sig.get("where", "")).split("/")
+                node = "in:" + (parts[-2] if len(parts) >= 2 else spec["k"])
         f["signature"] = {"level": sig["level"], "dir": d, "node": node}
 
 
@@ -708,8 +715,10 @@ def _check_bitfield(case):
         out.add({"law": _LAW.get(law, law), "level": level, "nested": nested}, f"[{law}, field kind {ftype}] " + detail)
 
     def s_level(b):
-        agree = "".join(lv for lv in ("P", "T") if b in state["seen"][lv] and b not in state["bad"][lv])
-        return "S!=" + agree if agree else "S"
+        for lv in ("P", "T"):
+            if b in state["seen"][lv] and b not in state["bad"][lv]:
+                return "S!=" + lv
+        return "S"
 
     def cmp_fields(level, law, objs, b, allow_q=False):
         for obj, (path, t, hi, lo) in zip(objs, leaves):
